@@ -177,11 +177,11 @@ Lemma inner_read_spec evs n ret inner' :
   script_ok evs -> 0 < n -> inner_read evs n = (ret, inner') ->
   script_ok inner' /\
   match ret with
-  | RData data =>
+  | BjData data =>
       script_data evs = data ++ script_data inner' /\ zlen data <= n /\
       script_errs inner' = script_errs evs /\
       (data = [] -> evs = [] /\ inner' = [])
-  | RErr c => evs = IErr c :: inner'
+  | BjErr c => evs = IErr c :: inner'
   end.
 Proof.
   intros Hok Hn H. unfold inner_read in H.
